@@ -461,3 +461,11 @@ def run(ck: Check, repo: Repo) -> None:
     rule_file_fields(ck, repo)
     rule_data_key(ck, repo)
     ck.exhaustive = True
+
+
+def verdict_formula_plain(repo: Repo, qual: str) -> tuple:
+    class _Ck:
+        def analysed_fn(self, *a):
+            pass
+
+    return verdict_formula(repo, qual, _Ck(), None)  # type: ignore[arg-type]
